@@ -702,9 +702,15 @@ def run_plan(cfg, make_inner, plan, on_trace=None):
         want = next(it, None)
         if want is None:
             return None
+        nth = 1
+        if '#' in want:                 # 'write#2': the second parked call of that name (completions out of submission order)
+            want, k_ = want.split('#')
+            nth = int(k_)
         for i, o in enumerate(opts):
             if o[0] == 'rel' and sc.ctl.parked[o[1]]['info'][0] == want:
-                return i
+                nth -= 1
+                if nth == 0:
+                    return i
             if o[0] == 'relay' and want == 'relay:' + o[2]:
                 return i
             if o[0] in ('enq', 'adv', 'flush', 'announce', 'announce_new') and o[0] == want:
